@@ -2,6 +2,8 @@ package rules
 
 import (
 	"fmt"
+	"go/constant"
+	"go/token"
 	"math/big"
 	"strings"
 
@@ -18,6 +20,25 @@ func init() { register("C12", ruleC12) }
 func ruleC12(c *Ctx) {
 	R := c.R
 	R.Assume("real arithmetic: float32 rounding is not decided; viewBox width/height and target size are positive and finite (as the property states)")
+
+	// C12.4 the named alignment fractions
+	R.Rule("C12.4", "the named alignment fractions are what their names say: Min = 0, Mid = 1/2, Max = 1 as constant values (an untyped integer quotient would make Mid 0)", 3)
+	if sp := c.P.Pkg(""); sp != nil {
+		for _, k := range []struct {
+			name string
+			num  int64
+			den  int64
+		}{{"Min", 0, 1}, {"Mid", 1, 2}, {"Max", 1, 1}} {
+			cst := sp.Const(k.name)
+			if cst == nil || cst.Value == nil || cst.Value.Value == nil {
+				R.Unknown("ivg."+k.name, "-", "constant not found")
+				continue
+			}
+			got := constant.ToFloat(cst.Value.Value)
+			want := constant.BinaryOp(constant.ToFloat(constant.MakeInt64(k.num)), token.QUO, constant.ToFloat(constant.MakeInt64(k.den)))
+			R.Check(got.Kind() != constant.Unknown && constant.Compare(got, token.EQL, want), "ivg."+k.name, c.P.Pos(cst.Pos()), fmt.Sprintf("%d/%d", k.num, k.den), cst.Value.Value.ExactString())
+		}
+	}
 
 	// C12.1 Size
 	R.Rule("C12.1", "ViewBox.Size() returns (MaxX-MinX, MaxY-MinY) (algebraic normal form)", 2)
